@@ -28,7 +28,7 @@ func H_Save() {
 	for r := 1; r <= R; r++ {
 		txns := rs.ChooseTxns("r", ntx)
 		last := r == R
-		b, ref, ok := rs.Execute(int64(r), txns)
+		b, ref, ok := rs.Execute(rs.Base+int64(r), txns)
 		if !ok {
 			return
 		}
@@ -49,7 +49,7 @@ func H_Save() {
 					}
 				}
 				// re-execute and re-save the interrupted round
-				b2, ref2, ok := rs.Execute(int64(r), txns)
+				b2, ref2, ok := rs.Execute(rs.Base+int64(r), txns)
 				if !ok {
 					return
 				}
